@@ -33,6 +33,13 @@ DPE = 'xdoctest.exceptions.DoctestParseError'
 TOTAL_STR_METHODS = {'expandtabs', 'splitlines', 'join', 'strip', 'format', 'lstrip', 'rstrip', 'split', 'startswith', 'endswith', 'replace'}
 
 
+def _default_summaries(ctx):
+    if not hasattr(ctx, '_default_summaries'):
+        from ..policy import Summaries, DefaultPolicy
+        ctx._default_summaries = Summaries(ctx.prog, ctx.res, DefaultPolicy, trusted=('xdoctest._tokenize',))
+    return ctx._default_summaries
+
+
 def run(ctx):
     for fn in (r1_escape_parse, r2_containment, r3_style_dispatch, r4_collection_continues, r5_variants, r6_directives_checked_at_parse_time):
         ctx.rep.rule(fn, ctx)
@@ -96,6 +103,8 @@ def r1_escape_parse(ctx):
                 kind = 'verified helper (min() guarded, see C13.R1)'
             elif isinstance(n.ast, ast.Raise) and any(x is c for x in ast.walk(n.ast)):
                 kind = 'operand of the guard raise'
+            elif r[0] == 'repo' and len(r[1]) == 1 and not _default_summaries(ctx).escapes(r[1][0]):
+                kind = 'repository helper that cannot raise (empty escape summary)'
             rep.ob('C14.R1a', ctx.loc(f, c), ctx.src(c), kind is not None,
                    'outside the try: %s' % kind if kind else 'a call that may raise on some text lies outside the wrapping try: its exception leaves parse() unconverted', anchor=PARSE)
     rep.floor('C14.R1', 'calls outside the wrapping try', n_out, 3)
@@ -130,6 +139,8 @@ def r1_escape_parse(ctx):
                 kind = 'formatting of a constant template'
             elif r[0] == 'builtin' and r[1] in ('print', 'repr', 'str', 'type', 'len'):
                 kind = 'total builtin'
+            elif r[0] == 'repo' and len(r[1]) == 1 and not _default_summaries(ctx).escapes(r[1][0]):
+                kind = 'repository helper that cannot raise (empty escape summary)'
             rep.ob('C14.R1d', ctx.loc(f, c), ctx.src(c, 80), kind is not None,
                    'inside the handler: %s' % kind if kind else 'a call that may raise precedes the conversion raise inside the handler', nontrivial=False, anchor=PARSE)
     # (e) definite assignment of the names read by the raise
